@@ -123,7 +123,10 @@ def judge_state(st, ctx):
             return fail("circuitikz:label-missing", f"no component labelled {sym}_{sub} in the CircuiTikZ source")
     # fitted parameter table: names and values belong to the right element
     if not dup and ctx and ctx.get("fit"):
-        r = _fit(c)
+        try:
+            r = _fit(c)
+        except Exception as e:  # noqa: BLE001 - e.g. a KeyError while the table of fitted parameters is assembled
+            return fail(f"fit-table:raises:{type(e).__name__}", f"fit_circuit raised {type(e).__name__}: {str(e)[:200]}")
         if r is not None:
             fr_ids = r.circuit.generate_element_identifiers(running=True)
             by_run = {v: k for k, v in fr_ids.items()}
